@@ -128,16 +128,60 @@ def counter_in_step(prog, B, counter, arr):
                 elif st0.get('k') == 'call' and st0.get('n') in GROW and st0.get('obj') is not None and is_member(st0['obj'], arr):
                     grows += 1
             if incs != grows:
-                return False, '%s (%s) changes %s %d time(s) and grows %s %d time(s) in one block' % (f.q.split('(')[0], f.where, counter, incs, arr, grows)
+                return False, '%s (%s) changes %s %d time(s) and grows %s %d time(s) in one block' % (f.q.split('(')[0], f.where, counter, incs, arr, grows), f.get('rec')
         # any other write to the counter or mutation of the array
         for n in walk(f.body):
             if n.get('k') == 'bin' and n.get('op', '').endswith('=') and n['op'] not in ('==', '!=', '<=', '>=') and is_member(n.get('a'), counter):
-                return None, '%s assigns %s (%s)' % (f.q.split('(')[0], counter, f.where)
+                return None, '%s assigns %s (%s)' % (f.q.split('(')[0], counter, f.where), None
             if n.get('k') == 'un' and n.get('op') == '--' and is_member(n.get('e'), counter):
-                return False, '%s (%s) decrements %s' % (f.q.split('(')[0], f.where, counter)
+                return False, '%s (%s) decrements %s' % (f.q.split('(')[0], f.where, counter), f.get('rec')
             if n.get('k') == 'call' and n.get('n') in SHRINK_OR_OTHER and n.get('obj') is not None and is_member(n['obj'], arr):
-                return None, '%s calls %s.%s (%s)' % (f.q.split('(')[0], arr, n['n'], f.where)
-    return True, None
+                return None, '%s calls %s.%s (%s)' % (f.q.split('(')[0], arr, n['n'], f.where), None
+    return True, None, None
+
+
+def derived_of(prog, k):
+    """names of the classes derived (transitively) from class k"""
+    out = set()
+    todo = [k]
+    while todo:
+        x = todo.pop()
+        for q, r in prog.records.items():
+            if q not in out and any((b.get('q') if isinstance(b, dict) else b) == x for b in r.get('bases', [])):
+                out.add(q)
+                todo.append(q)
+    return out
+
+
+def this_classes(prog, f, B):
+    """the dynamic classes `this` can have when the base-class method f runs: 'ALL' when f is reachable from outside the
+    hierarchy (an entry point calling it on the selected solution) or from another base-class method that is; else the set of
+    derived classes whose own methods call it on this"""
+    seen = set()
+    out = set()
+    todo = [f]
+    while todo:
+        g = todo.pop()
+        if (g.q, g.sig) in seen:
+            continue
+        seen.add((g.q, g.sig))
+        for h in prog.functions:
+            if h.body is None:
+                continue
+            for c in calls(h.body):
+                if not c.get('inrepo') or c.get('n') != g.n:
+                    continue
+                if c.get('q') != g.q and not (c.get('virt') and g.get('virt')):
+                    continue
+                ob = strip(c['obj'], casts=True) if c.get('obj') is not None else None
+                on_this = ob is None or ob.get('k') == 'this'
+                if h.get('rec') == B and on_this:
+                    todo.append(h)
+                elif h.get('rec') and on_this and h.get('rec') != B:
+                    out.add(h.get('rec'))
+                else:
+                    return 'ALL'
+    return out
 
 
 def terms_with_loops(events, stack=()):
@@ -193,8 +237,8 @@ def counter_bound(idx, stack, arr):
             if c[0] == 'cmp' and c[2] == idx:
                 if c[1] == '<' and c[3] == ('size', ('sym', arr)):
                     return ('size', None)
-                if c[1] == '<=' and c[3][0] == 'sym' and '.' not in c[3][1] and not c[3][1].startswith(('@', 'global:', 'const:', 'static:')):
-                    return ('member', c[3][1])
+                if c[1] in ('<=', '<') and c[3][0] == 'sym' and '.' not in c[3][1] and not c[3][1].startswith(('@', 'global:', 'const:', 'static:')):
+                    return ('member', c[3][1])      # i < M is inside i <= M
                 if c[1] == '<' and c[3][0] == 'add' and len(c[3][1]) == 2 and terms.num(1) in c[3][1]:
                     m = [x for x in c[3][1] if x != terms.num(1)]
                     if m and m[0][0] == 'sym' and '.' not in m[0][1] and not m[0][1].startswith(('@', 'global:', 'const:', 'static:')):
@@ -291,6 +335,28 @@ def run(ctx, prog):
                sample='%s deletes %s' % (f.n, show(n['e'])))
     ctx.floor('new_sites', len(new_sites), 2 * 30)
     ctx.floor('delete_sites', len(del_sites), 2 * 2)
+    # ---- O1 (removal): an entry point that takes an entry out of the registry outside init_mms releases the entry's object
+    from .. import api as apimod
+    from .. import ownership as own_
+    for scalar in cat.SCALARS:
+        sc = 'ld' if scalar == 'long double' else 'd'
+        regs_ = apimod.registry_globals(prog)
+        mp_ = regs_[scalar] + '._master_map'
+        for f in apimod.api_functions(prog, scalar):
+            if not f.where.startswith('src/masa_core.cpp'):
+                continue
+            E_, paths_ = apimod.evaluate(prog, f, scalar)
+            stacks = E_.trace.write_stacks.get(mp_, ())
+            if not stacks or all(any(q_.split('::')[-1] == 'init_mms' for q_ in st_) for st_ in stacks):
+                continue
+            leaks, rec = [], True
+            for rp in own_.removal_paths(prog, f, scalar):
+                pr_, lk_, ok_ = own_.check_removal(rp)
+                rec = rec and ok_
+                leaks += lk_
+            ctx.ob('C19.O1', 'removal|%s|%s' % (f.n, sc), (not leaks) if (rec or leaks) else None, f.where,
+                   '%s: %s' % (f.n, '; '.join(sorted(set(leaks))[:2])) if leaks else '%s changes the registry in a way the removal rule does not recognise: not decided' % f.n,
+                   sample='%s: every entry removed from the registry has its object deleted on the same path' % f.n)
     for scalar in cat.SCALARS:
         sc = 'ld' if scalar == 'long double' else 'd'
         rq, meths, im, pf = per_scalar[scalar]
@@ -310,6 +376,7 @@ def run(ctx, prog):
         from ..ownership import lookup_fact
         n_idx = 0
         in_step = {}
+        this_cls = {}
         for f in prog.methods_of(B):
             if f.get('ctor') or f.get('dtor') or f.get('virt') and f.n.startswith('eval_'):
                 continue
@@ -345,7 +412,15 @@ def run(ctx, prog):
                                 key_ = (cb[1], st[1][1])
                                 if key_ not in in_step:
                                     in_step[key_] = counter_in_step(prog, B, cb[1], st[1][1])
-                                ok_, why_ = in_step[key_]
+                                ok_, why_, off_rec = in_step[key_]
+                                if ok_ is False and off_rec is not None:
+                                    # the function that breaks the invariant does so for objects of its own class only: it matters
+                                    # if this method can run on such an object
+                                    if f.q not in this_cls:
+                                        this_cls[f.q] = this_classes(prog, f, B)
+                                    tc = this_cls[f.q]
+                                    if tc != 'ALL' and not any(off_rec == k_ or off_rec in derived_of(prog, k_) for k_ in tc):
+                                        ok_ = True
                                 if ok_:
                                     continue    # i <= counter == arr.size() - 1, an invariant of every function that touches either
                                 if ok_ is None:
